@@ -2,7 +2,7 @@
    contract gz_contract (reading what was compressed yields the input and EOF). *)
 From Coq Require Import List NArith ZArith.
 From Coq.Strings Require Import Byte.
-From OAP Require Import Base.Bytes Base.Res Gen.Consts Model.Metadata Model.Header Model.Frame Model.Spec Proofs.MetadataP Proofs.FrameP.
+From OAP Require Import Base.Bytes Base.Res Gen.Consts Model.Metadata Model.Header Model.Frame Model.Spec Model.Stream Model.Chunks Proofs.MetadataP Proofs.FrameP Proofs.StreamSpecP.
 Import ListNotations.
 Local Open Scope N_scope.
 
@@ -22,6 +22,36 @@ Theorem C01_roundtrip_oneshot : forall gz v codec thr stale stale' p fr p',
             m_gzip (p_md q) = pack_compresses thr (p_body p).
 Proof. exact roundtrip_oneshot. Qed.
 
+(* STREAMING ROUND TRIP (the receive path of a TCP connection, Model/Chunks.v run_chunks): whatever packets are encoded
+   onto a connection, however the byte stream is cut into socket reads and wherever the ring buffer wraps during each
+   read, the read loop delivers, in order, exactly one packet per encoded packet - the packet the one-shot round trip
+   describes - asks for more data at the end and is left with an empty buffer. *)
+Theorem C01_roundtrip_streaming : forall gz v codec thr, gz_contract gz ->
+  forall ps frs chunks kss,
+    Forall2 (fun p fr => wf_packet v p = true /\ exists stale p', pack gz v thr stale p = Ok (fr, p')) ps frs ->
+    chunks <> [] -> concat chunks = concat frs ->
+    let '(out, e, sf) := run_chunks gz v codec kss 0 (mkS None []) chunks in
+    out = map (received_packet gz v codec thr) ps /\ e = ENeed /\ s_q sf = [].
+Proof. exact roundtrip_streaming. Qed.
+
+(* ... and the delivered packet carries the caller's fields *)
+Theorem C01_received_packet_fields : forall gz v codec thr p, wf_packet v p = true ->
+  let q := received_packet gz v codec thr p in
+  p_body q = p_body p /\ m_type (p_md q) = m_type (p_md p) /\ m_cmd (p_md q) = m_cmd (p_md p) /\
+  m_rid (p_md q) = m_rid (p_md (received v codec p)) /\ m_timeout (p_md q) = m_timeout (p_md (received v codec p)) /\
+  m_status (p_md q) = m_status (p_md (received v codec p)) /\ m_verify (p_md q) = m_verify (p_md p) /\
+  m_nonce (p_md q) = m_nonce (p_md (received v codec p)) /\ m_sig (p_md q) = m_sig (p_md (received v codec p)) /\
+  m_values (p_md q) = m_values (p_md p) /\ m_gzip (p_md q) = pack_compresses thr (p_body p).
+Proof. exact received_packet_fields. Qed.
+
+(* one Unpack call on a frame of the published layout followed by any bytes: the packet of the layout, the rest untouched *)
+Theorem C01_stream_decodes_layout : forall gz v codec k stale f vals body rest,
+  wf_fields v f = true ->
+  (if v =? 2 then unmarshal_values (f_meta f) = Ok vals else vals = []) ->
+  (if f_gzip f then decompress gz (f_body f) = Ok body else body = f_body f) ->
+  stream_unpack gz v codec k stale (mkS None (spec_frame v f ++ rest)) = (Ok (SPkt (packet_of codec f vals body)), mkS None rest).
+Proof. exact stream_spec. Qed.
+
 (* a packet that cannot be represented yields an error, never bytes *)
 Theorem C01_unknown_type_is_error : forall gz v thr stale p,
   m_type (p_md p) = PTNone -> N.of_nat (length (wire_body gz thr (p_body p))) <= c_MaxBodyLength ->
@@ -38,5 +68,8 @@ Example C01_example :
 Proof. vm_compute. reflexivity. Qed.
 
 Print Assumptions C01_roundtrip_oneshot.
+Print Assumptions C01_roundtrip_streaming.
+Print Assumptions C01_received_packet_fields.
+Print Assumptions C01_stream_decodes_layout.
 Print Assumptions C01_unknown_type_is_error.
 Print Assumptions C01_body_over_limit_is_error.
